@@ -39,14 +39,22 @@ package crl
 //@   props C15 C19
 //@   requires checkerOK(c) && norwlocks() && chains != nil && chainsOK(chains)
 //@   assigns L.held, crlrepository.Entry.CRLStore, crlrepository.Entry.Loaded, crlrepository.Entry.LastUpdateSignatureVerifyFailed, crlrepository.Entry.LastUpdateSignature, crlrepository.Entry.Chains, H.crlrepository.Repository.crlRepository, M.map[string]*crlrepository.Entry, crlstore.MapStore.Map, M.map[string][]uint8, crlstore.LevelDbStore.Db, H.crlloader.MultiSchemesCRLLoader, H.crlloader.URLLoader, H.crlloader.FileLoader, X.ldbhas, X.fs, X.net, X.retry, X.stream, X.spos, X.hacc, X.hkind, E.uint8, E.any, E.string, fresh:E.*core.CertificateChainEntry, fresh:E.core.CertificateChain, fresh:E.core.CertificateChainEntry
-//@   ensures checkerOK(c) && norwlocks() && chainsOK(chains)
-//@   loop 1 invariant checkerOK(c) && norwlocks() && chainsOK(chains)
+//@   ensures checkerOK(c)
+//@   ensures norwlocks()
+//@   ensures chainsOK(chains)
+//@   loop 1 invariant checkerOK(c)
+//@   loop 1 invariant norwlocks()
+//@   loop 1 invariant chainsOK(chains)
 //@ func CRLRevocationChecker.addCrlFilesFromConfig
 //@   props C15 C19
 //@   requires checkerOK(c) && norwlocks() && chains != nil && chainsOK(chains)
 //@   assigns L.held, crlrepository.Entry.CRLStore, crlrepository.Entry.Loaded, crlrepository.Entry.LastUpdateSignatureVerifyFailed, crlrepository.Entry.LastUpdateSignature, crlrepository.Entry.Chains, H.crlrepository.Repository.crlRepository, M.map[string]*crlrepository.Entry, crlstore.MapStore.Map, M.map[string][]uint8, crlstore.LevelDbStore.Db, H.crlloader.MultiSchemesCRLLoader, H.crlloader.URLLoader, H.crlloader.FileLoader, X.ldbhas, X.fs, X.net, X.retry, X.stream, X.spos, X.hacc, X.hkind, E.uint8, E.any, E.string, fresh:E.*core.CertificateChainEntry, fresh:E.core.CertificateChain, fresh:E.core.CertificateChainEntry
-//@   ensures checkerOK(c) && norwlocks() && chainsOK(chains)
-//@   loop 1 invariant checkerOK(c) && norwlocks() && chainsOK(chains)
+//@   ensures checkerOK(c)
+//@   ensures norwlocks()
+//@   ensures chainsOK(chains)
+//@   loop 1 invariant checkerOK(c)
+//@   loop 1 invariant norwlocks()
+//@   loop 1 invariant chainsOK(chains)
 
 //@ func CRLRevocationChecker.initCRLUpdateTicker
 //@   props C15 C19 C07
@@ -76,3 +84,8 @@ package crl
 //@   requires crlConfig != nil && unheld(&workDirInUseMutex)
 //@   assigns L.held, M.map[string]int, G.crl.workDirsInUse
 //@   ensures sameLocks()
+
+//@ func CRLRevocationChecker.initCRLUpdateTicker$1
+//@   props C15 C07 C13
+//@   requires checkerOK(c) && norwlocks() && unheld(&crlUpdateMutex) && c.crlUpdateTicker != nil
+//@   assigns *
